@@ -6,7 +6,7 @@ From Conductor Require Import Model.Loader Model.Planner Model.Exec Model.RunCas
   Proofs.ExecInv Proofs.ExecTheorems Proofs.ExecMain Proofs.LoaderProofs Proofs.Compose
   Model.Reaper Proofs.ReaperProofs.
 From Conductor Require Import Gen.Generated Proofs.GenTie Proofs.ExecNested.
-From Conductor Require Import Proofs.WfPlanDec.
+From Conductor Require Import Proofs.WfPlanDec Model.Inflight Proofs.InflightProofs.
 Import ListNotations.
 
 (* progress: every iteration of the main loop launches, skips or completes an operation, so the
@@ -113,6 +113,43 @@ Theorem C09_wait_results_are_an_admissible_oracle :
   (forall p rc rc', In (p, rc) (returned s) -> In (p, rc') (exits_of tr) -> rc = rc').
 Proof. exact wait_results_admissible. Qed.
 Print Assumptions C09_wait_results_are_an_admissible_oracle.
+
+(* The executor's layer on top (Model/Inflight.v: _InflightOperations, the table keyed by pid and wait_for_next_op's loop
+   over SigchldHelper.wait()).  One call: the operation handed back is the one registered under the pid of the value that ended
+   the call, with that value's status; everything consumed before it named an unregistered process (an unrelated child);
+   exactly that entry leaves the table. *)
+Theorem C09_next_op_attribution : forall t w o rc t' w',
+  next_op t w = Some (o, rc, t', w') ->
+  exists pid skipped,
+    w = skipped ++ (pid, rc) :: w' /\ In (pid, o) t /\ t' = tbl_remove pid t /\
+    (forall q r, In (q, r) skipped -> ~ In q (map fst t)).
+Proof. exact next_op_attribution. Qed.
+Print Assumptions C09_next_op_attribution.
+
+(* the call keeps waiting exactly as long as no value names a registered process *)
+Theorem C09_next_op_waits_iff : forall t w,
+  next_op t w = None <-> forall q r, In (q, r) w -> ~ In q (map fst t).
+Proof. exact next_op_waits_iff. Qed.
+Print Assumptions C09_next_op_waits_iff.
+
+(* All calls, over the protocol: along ANY run of the reaper in which every child exits once (see F4 below), for any table
+   with one entry per pid and per operation -- every completion the executor obtains is an operation registered under the pid
+   of a child that DID exit, with the status that very child exited with (no completion is attributed to the wrong task);
+   every returned value of a registered child yields the completion of its operation (none is lost); and no operation is
+   completed twice.  Unrelated children complete nothing. *)
+Theorem C09_completions_over_the_reaper : forall tr s t,
+  rrun false rinit tr = Some s -> NoDup (map fst (exits_of tr)) -> NoDup (map fst t) -> NoDup (map snd t) ->
+  (forall o rc, In (o, rc) (completions t (returned s)) ->
+     exists pid, In (pid, o) t /\ In (pid, rc) (exits_of tr) /\ forall rc', In (pid, rc') (exits_of tr) -> rc' = rc) /\
+  (forall pid o rc, In (pid, o) t -> In (pid, rc) (returned s) -> In (o, rc) (completions t (returned s))) /\
+  NoDup (map fst (completions t (returned s))).
+Proof. exact completions_over_reaper. Qed.
+Print Assumptions C09_completions_over_the_reaper.
+
+Example C09_inflight_nonvacuous :
+  completions [(51, 1); (52, 2)] [(50, 0); (52, 3); (60, 9); (51, 0)] = [(2, 3); (1, 0)] /\
+  next_op [(51, 1)] [(50, 0); (60, 9)] = None.
+Proof. vm_compute. split; reflexivity. Qed.
 
 (* the hypothesis "every child exits once" (pairwise distinct pids) is needed.  The kernel may hand the pid of a
    reaped child to a new one while the first exit is still queued; the values returned by wait() then
